@@ -13,6 +13,8 @@ pub enum Scenario {
     Crash(crate::fam_crash::CrashScn),
     CrashPath(crate::fam_crash::CrashPathScn),
     CrashBig(crate::fam_crash::CrashBigScn),
+    BigBox(crate::fam_rt::BigBoxScn),
+    BigEmit(crate::fam_rt::BigEmitScn),
     WFault(crate::fam_wfault::WfScn),
     RFault(crate::fam_rfault::RfScn),
     Corrupt(crate::fam_corrupt::CorScn),
@@ -32,6 +34,8 @@ impl Scenario {
             Scenario::Crash(_) => "CRASH",
             Scenario::CrashPath(_) => "CRASH-PATH",
             Scenario::CrashBig(_) => "CRASH-BIG",
+            Scenario::BigBox(_) => "RT-BIG-BOX",
+            Scenario::BigEmit(_) => "RT-BIG-EMIT",
             Scenario::WFault(_) => "WFAULT",
             Scenario::RFault(_) => "RFAULT",
             Scenario::Corrupt(_) => "CORRUPT",
@@ -53,6 +57,8 @@ pub fn execute(s: &Scenario, ctx: &mut Ctx) {
         Scenario::Crash(x) => crate::fam_crash::execute(x, ctx),
         Scenario::CrashPath(x) => crate::fam_crash::execute_path(x, ctx),
         Scenario::CrashBig(x) => crate::fam_crash::execute_big(x, ctx),
+        Scenario::BigBox(x) => crate::fam_rt::execute_bigbox(x, ctx),
+        Scenario::BigEmit(x) => crate::fam_rt::execute_bigemit(x, ctx),
         Scenario::WFault(x) => crate::fam_wfault::execute(x, ctx),
         Scenario::RFault(x) => crate::fam_rfault::execute(x, ctx),
         Scenario::Corrupt(x) => crate::fam_corrupt::execute(x, ctx),
